@@ -297,3 +297,60 @@ M("C03.open_push_keeps_ambient", "C03", "src/platform/thread_local_ctxt.rs",
 M("C03.frame_drop_skips_close", "C03", "src/frame.rs",
   "        ctxt.close(scope)\n",
   "        let _ = (ctxt, scope);\n", "C03.R5")
+
+# ---- C04 -------------------------------------------------------------------------------------------
+M("C04.new_child_wrong_parent", "C04", "src/span.rs",
+  "        let span_parent = self.span_id;\n        let span_id = SpanId::random(&rng);\n\n        SpanCtxt::new(trace_id, span_parent, span_id)",
+  "        let span_parent = self.span_parent;\n        let span_id = SpanId::random(&rng);\n\n        SpanCtxt::new(trace_id, span_parent, span_id)", "C04.R1")
+M("C04.current_swaps_keys", "C04", "src/span.rs",
+  """                current.pull::<SpanId, _>(KEY_SPAN_PARENT),
+                current.pull::<SpanId, _>(KEY_SPAN_ID),""",
+  """                current.pull::<SpanId, _>(KEY_SPAN_ID),
+                current.pull::<SpanId, _>(KEY_SPAN_PARENT),""", "C04.R2")
+M("C04.disabled_span_pushes_ids", "C04", "src/span.rs",
+  "            Frame::disabled(ctxt, ctxt_props.and_props(span_ctxt))",
+  "            Frame::push(ctxt, ctxt_props.and_props(span_ctxt))", "C04.R4")
+M("C04.props_view_swaps_fields", "C04", "src/span.rs",
+  """        if let Some(ref span_id) = self.span_id {
+            for_each(KEY_SPAN_ID.to_str(), span_id.to_value())?;
+        }
+
+        if let Some(ref span_parent) = self.span_parent {
+            for_each(KEY_SPAN_PARENT.to_str(), span_parent.to_value())?;
+        }""",
+  """        if let Some(ref span_id) = self.span_id {
+            for_each(KEY_SPAN_PARENT.to_str(), span_id.to_value())?;
+        }
+
+        if let Some(ref span_parent) = self.span_parent {
+            for_each(KEY_SPAN_ID.to_str(), span_parent.to_value())?;
+        }""", "C04.R2")
+M("C04.guard_child_of_empty", "C04", "src/span.rs",
+  "        let span_ctxt = SpanCtxt::current(&ctxt).new_child(rng);",
+  "        let span_ctxt = SpanCtxt::empty().new_child(rng);", "C04.R4")
+M("C04.begin_span_wrong_rng_clock", "C04", "src/macro_hooks.rs",
+  """        __PrivateBeginSpanFilter { rt, when, lvl },
+        rt.ctxt(),""",
+  """        __PrivateBeginSpanFilter { rt, when: None::<&crate::Empty>, lvl },
+        rt.ctxt(),""", "C04.R6") if False else None
+M("C04.tlv_trace_id_as_any", "C04", "src/platform/thread_local_ctxt.rs",
+  """        if let Some(span_id) = value.downcast_ref() {
+            return ThreadLocalValue::SpanId(*span_id);
+        }
+""",
+  "", "C04.S5")
+M("C04.complete_ok_empty_ctxt", "C04", "src/macro_hooks.rs",
+  """            self.rt.emitter(),
+            crate::Empty,
+            self.rt.ctxt(),
+            self.rt.clock(),
+            span.to_event()
+                .with_tpl(self.tpl.by_ref())
+                .map_props(|span_props| lvl_prop.and_props(span_props)),""",
+  """            self.rt.emitter(),
+            crate::Empty,
+            crate::Empty,
+            self.rt.clock(),
+            span.to_event()
+                .with_tpl(self.tpl.by_ref())
+                .map_props(|span_props| lvl_prop.and_props(span_props)),""", "C04.S4")
